@@ -295,6 +295,11 @@ def check(tier):
         nfmt = 0
         for mn_ in sorted(fres):
             rec_ = (fres[mn_].get('functions') or {}).get('format')
+            for a_ in (rec_ or {}).get('alarms') or []:
+                if a_['kind'] == 'AttributeError' and a_['why'].startswith('module ') and ' has no ' in a_['why']:
+                    rep.fail('C18.availability', a_['file'], a_['func'], a_['construct'], a_['line'],
+                             '%s.format() is called by the page for every number its is_valid() accepts, outside any handler; %s: AttributeError, server error'
+                             % (mn_.replace('stdnum.', ''), a_['why']))
             if not rec_ or mn_ in _scope.C04_UNDECIDED:
                 continue
             nfmt += 1
